@@ -22,13 +22,30 @@ Streams
             (placeholder look-alikes `"0"`, `"1"` ... in both quote kinds, `'"0"'`, `""`, `'a,b'`, `"\\"`) as
             initial values, one statement per line: the program stream's checks.
 
+  include : generated main file + include files (statements of the layout stream, an `include 'name'` statement
+            first / in the middle / last on its line, after `;`, continued, nested, files without statements, a missing
+            `.h` file, names with blanks `;` `!` `&` and a quote of the other kind):
+            (a) correspondence: equal to the Lean `Include.readFS` (model of the `pending` queue and `include()`),
+            (b) property oracle: the items are those of the program with every include statement replaced by the
+                items of the file it names (what INCLUDE means), token for token, docs exact.
+  include-sweep : bounded-exhaustive: every line of <= 3 statements over {plain statement, include of a one-statement
+            file, of a file with a literal `'a;b ! c'` + doc + second statement, of a file without statements, of a file
+            that includes another, of a missing `.h` file} x every choice of `;` / new line between them x
+            {nothing, comment, doc comment} behind the last one; the include stream's checks.
+  A third of the program cases are *include-split*: a random run of the program's statements is moved to an
+  include file (any run: INCLUDE is textual); the entity tree must be that of the unsplit program.
+
 The statement oracle compares *lexical tokens* (c02prog.lex): blanks between tokens are free,
 a blank inside a token (a name, number or operator continued with `&` ... `&`) is a difference.
 """
 from __future__ import annotations
 
+import contextlib
 import itertools
+import os
 import random
+import shutil
+import tempfile
 from pathlib import Path
 
 from . import common
@@ -70,12 +87,18 @@ COMMENTS = ["! c", "!c 'q", "! it's; &", "!", "!  \"", "!x !! not doc"]
 DOCS = ["!! doc", "!! it's a doc; with & and 'q", "!!d2", "!! see \"x"]
 
 
-def render(rng, stmts, feat, docs=None, safe=False):
+def is_inc(toks):
+    """token texts of an include statement: the keyword, then a character literal"""
+    return len(toks) == 2 and toks[0].lower() == "include" and toks[1][:1] in ("'", '"')
+
+
+def render(rng, stmts, feat, docs=None, safe=False, seps=None):
     """Render statements (lists of lexical tokens) into physical lines with a random legal
     layout.  Returns (lines, expected) where expected is the list of ('stmt', [token texts]) /
     ('doc', text) in reading order.  `feat` collects layout features.
     `docs` = None: doc comments are placed at random; otherwise docs[i] is the list of doc lines
     that belong to statement i (placed inline or on the following lines) and no others appear.
+    `seps` (a list) receives, for every statement, whether a `;` (True) or the end of the line follows it.
     `safe`: do not produce the layouts of the known finding C02-comment-while-literal-continued
     (no comment line inside, and no comment / doc behind, a literal continued across lines), so
     that no failure on this case can be excused by that class.
@@ -149,6 +172,10 @@ def render(rng, stmts, feat, docs=None, safe=False):
         for ti, (kind, t) in enumerate(toks):
             if ti > 0:
                 need = needs_sep(toks[ti - 1][1], t)
+                if ti == 1 and kind == "lit" and toks[0][1].lower() == "include":
+                    # FORD knows an include statement by the keyword followed by a blank (open finding
+                    # C02-include-keyword-separator; the other spellings are the business of inc_form_cases)
+                    need = True
                 r = rng.random()
                 if r < 0.5:
                     cur += rng.choice([" ", "  "] if need else ["", " ", "  ", " "])
@@ -206,7 +233,11 @@ def render(rng, stmts, feat, docs=None, safe=False):
         if not last and not own and rng.random() < 0.35:
             cur += rng.choice(["", " "]) + ";" + rng.choice(["", " "])
             feat.add("semicolon")
+            if seps is not None:
+                seps.append(True)
             continue
+        if seps is not None:
+            seps.append(False)
         # end of physical line
         before = len(cur)
         had_lit_open = inlit_open
@@ -274,6 +305,245 @@ def sweep_cases(rng, maxunits, with_breaks):
                                exp, feat)
 
 
+# ---------------------------------------------------------------------------------------
+# include statements
+#
+# The property's reading of INCLUDE: the statement stands for the statements and doc lines of the
+# file it names, wherever it stands in the layout.  FORD keeps the statement (with a warning) when a
+# `.h` file cannot be found; that is the expectation for such a name too.
+
+INC_NAMES = ["decls.inc", "a b.inc", "x;y.inc", "it's.inc", 'say"q".inc', "amp&.inc", "bang!.inc", "UPPER.INC",
+             "defs.h", "consts.inc", "inc_2.f90", " lead.inc", "p(1).inc", "include .inc"]
+MISSING_H = "c02_gone.h"          # never written
+INC_FINDING = "C02-include-without-statements"
+
+
+def inc_stmt(rng, name):
+    q = '"' if "'" in name else "'" if '"' in name else rng.choice("'\"")
+    return [("code", rng.choice(["include", "include", "INCLUDE", "Include"])), ("lit", q + name + q)]
+
+
+def inline(expected, file_expected):
+    """Replace every include statement of `expected` by the (inlined) items of the file it names."""
+    out = []
+    for kind, t in expected:
+        if kind == "stmt" and is_inc(t) and t[1][1:-1] in file_expected:
+            out.extend(inline(file_expected[t[1][1:-1]], file_expected))
+        else:
+            out.append((kind, t))
+    return out
+
+
+def inc_class(main, file_stmts, file_seps, file_expected):
+    """Class of the open finding C02-include-without-statements (decided on the input): in the main file or in a
+    file it (transitively) includes, an include statement whose file gives no statement and no doc line stands last
+    on its logical line or directly in front of another include statement."""
+    seen, todo = set(), [main]
+    while todo:
+        f = todo.pop()
+        if f in seen:
+            continue
+        seen.add(f)
+        stmts, seps = file_stmts[f], file_seps[f]
+        for i, t in enumerate(stmts):
+            if not (is_inc(t) and t[1][1:-1] in file_stmts):
+                continue
+            todo.append(t[1][1:-1])
+            if inline(file_expected[t[1][1:-1]], file_expected):
+                continue
+            if i == len(stmts) - 1 or not seps[i] or is_inc(stmts[i + 1]):
+                return INC_FINDING
+    return None
+
+
+def gen_inc_case(rng, k):
+    """main file + include files, each a random layout of random statements.
+    Returns (main lines, expected items, features, files {name: lines}, finding class or None)."""
+    feat = {"include"}
+    nfiles = rng.choice([1, 1, 2, 2, 3])
+    names = rng.sample(INC_NAMES, nfiles)
+    allow_empty = k % 6 == 0
+    # the cases that may fall into the class of C02-include-without-statements are rendered `safe`, so that no
+    # input belongs to the classes of both open findings
+    safe = k % 2 == 1 or allow_empty
+    stmts = {}
+    docs_only = set()
+    for i, nm in enumerate(names):
+        r = rng.random()
+        if allow_empty and r < 0.45:
+            stmts[nm] = []
+            feat.add("include-file-without-statements")
+        elif r < 0.08:
+            stmts[nm] = []
+            docs_only.add(nm)
+        else:
+            stmts[nm] = [gen_stmt(rng, 4) for _ in range(rng.randint(1, 3))]
+        # nesting: only files later in the list are included (no cycles)
+        if i + 1 < nfiles and rng.random() < 0.4:
+            stmts[nm].insert(rng.randint(0, len(stmts[nm])), inc_stmt(rng, names[i + 1]))
+            feat.add("include-nested")
+    main = [gen_stmt(rng, 4) for _ in range(rng.randint(1, 4))]
+    targets = [names[0]] + [n for n in names[1:] if rng.random() < 0.5]
+    if rng.random() < 0.12:
+        targets.append(MISSING_H)
+        feat.add("include-missing-h")
+    if rng.random() < 0.1:
+        targets.append(names[0])          # the same file twice
+    for t in targets:
+        main.insert(rng.randint(0, len(main)), inc_stmt(rng, t))
+    files, file_expected, file_stmts, file_seps = {}, {}, {}, {}
+    for nm in ["<main>"] + names:
+        st = main if nm == "<main>" else stmts[nm]
+        seps = []
+        f2 = set()
+        if st:
+            lines, exp = render(rng, st, f2, safe=safe, seps=seps)
+        elif nm in docs_only:
+            lines, exp = ["!! a doc line, no statement", "  !! and another"], [("doc", "!! a doc line, no statement"), ("doc", "!! and another")]
+        else:
+            lines, exp = rng.choice([[], [""], ["! nothing but a comment", ""], ["", "   ! c", "!c 'q"]]), []
+        # where the include statements stand
+        for i, toks in enumerate(st):
+            if is_inc([t for _, t in toks]):
+                first = i == 0 or not seps[i - 1]
+                lastp = not seps[i]
+                feat.add("include-alone-on-line" if first and lastp else "include-first-of-line" if first
+                         else "include-last-after-semicolon" if lastp else "include-between-semicolons")
+        feat |= f2
+        file_expected[nm] = exp
+        file_stmts[nm] = [[t for _, t in toks] for toks in st]
+        file_seps[nm] = seps
+        if nm != "<main>":
+            files[nm] = lines
+        else:
+            main_lines = lines
+    expected = inline(file_expected["<main>"], file_expected)
+    return main_lines, expected, feat, files, inc_class("<main>", file_stmts, file_seps, file_expected)
+
+
+INC_SWEEP_FILES = {
+    "one.inc": (["y = 2"], [("stmt", ["y", "=", "2"])]),
+    "two.inc": (["y = 'a;b ! c'  !! dy", "", "z = 3 ! c"], [("stmt", ["y", "=", "'a;b ! c'"]), ("doc", "!! dy"), ("stmt", ["z", "=", "3"])]),
+    "none.inc": (["! nothing but a comment", ""], []),
+    "nest.inc": (["w = 4; include 'one.inc'"], [("stmt", ["w", "=", "4"]), ("stmt", ["include", "'one.inc'"])]),
+}
+INC_SWEEP_ITEMS = [None, "one.inc", "two.inc", "none.inc", "nest.inc", MISSING_H]
+INC_SWEEP_TAILS = [("", None), (" ! c", None), (" !! d", "!! d")]
+
+
+def inc_sweep_cases(maxn):
+    """Bounded-exhaustive: every sequence of <= maxn statements over INC_SWEEP_ITEMS (None = a plain statement)
+    with at least one include x every choice of `;` / new line between consecutive statements x INC_SWEEP_TAILS."""
+    files = {n: ls for n, (ls, _) in INC_SWEEP_FILES.items()}
+    file_expected = {n: e for n, (_, e) in INC_SWEEP_FILES.items()}
+    fstmts = {n: [t for kind, t in e if kind == "stmt"] for n, e in file_expected.items()}
+    fseps = {"one.inc": [False], "two.inc": [False, False], "none.inc": [], "nest.inc": [True, False]}
+    for n in range(1, maxn + 1):
+        for seq in itertools.product(INC_SWEEP_ITEMS, repeat=n):
+            if all(x is None for x in seq):
+                continue
+            toks = [["v%d" % i, "=", str(i)] if x is None else ["include", "'%s'" % x] for i, x in enumerate(seq)]
+            text = ["v%d = %d" % (i, i) if x is None else "%s '%s'" % (("include", "INCLUDE", "Include")[(i + n) % 3], x)
+                    for i, x in enumerate(seq)]
+            toks = [t if x is None else [text[i].split(" ")[0], t[1]] for i, (x, t) in enumerate(zip(seq, toks))]
+            for mask in itertools.product([True, False], repeat=n - 1):
+                seps = list(mask) + [False]
+                for tail, doc in INC_SWEEP_TAILS:
+                    lines, cur = [], ""
+                    for i in range(n):
+                        cur += text[i]
+                        if seps[i]:
+                            cur += "; "
+                        else:
+                            lines.append(cur)
+                            cur = ""
+                    lines[-1] += tail
+                    exp = [("stmt", t) for t in toks] + ([("doc", doc)] if doc else [])
+                    file_expected["<main>"] = exp
+                    fstmts["<main>"], fseps["<main>"] = toks, seps
+                    feat = {"sweep", "include"} | ({"semicolon"} if any(mask) else set())
+                    if any(x is not None and i > 0 and seps[i - 1] for i, x in enumerate(seq)):
+                        feat.add("include-after-semicolon")
+                    yield (lines, inline(exp, file_expected), feat, files,
+                           inc_class("<main>", fstmts, fseps, file_expected))
+
+
+KW_FINDING = "C02-include-keyword-separator"
+
+
+def kw_class(stmt_texts):
+    """Class of the open finding C02-include-keyword-separator (decided on the input): a statement starts with the
+    word `include` (any capitalisation) and either the file name follows after a tab / directly (an include line FORD
+    does not recognise), or a blank and something that is not a character literal follows (not an include line, taken
+    for one)."""
+    for t in stmt_texts:
+        if t[:7].lower() != "include" or len(t) == 7:
+            continue
+        r = t[7:]
+        is_line = r.lstrip()[:1] in ("'", '"')
+        if (is_line and r[0] != " ") or (not is_line and r[0] == " "):
+            return KW_FINDING
+    return None
+
+
+INC_WORD_STMTS = [("include = 3", ["include", "=", "3"]), ("include (2) = 'a'", ["include", "(", "2", ")", "=", "'a'"]),
+                  ("Include % x = 1", ["Include", "%", "x", "=", "1"]), ("include_ = 3", ["include_", "=", "3"]),
+                  ("included = 'f.inc'", ["included", "=", "'f.inc'"]),
+                  ("x = 'include ''one.inc'''", ["x", "=", "'include ''one.inc'''"]),
+                  ("call include ('one.inc')", ["call", "include", "(", "'one.inc'", ")"])]
+
+
+def inc_form_cases():
+    """Bounded-exhaustive spellings of one include line: keyword capitalisation x what separates keyword and name
+    (nothing, a tab, blank + tab, tab + blank, one blank, three blanks) x quote kind x place on the line x comment;
+    and statements that merely start with, or contain, the word `include`."""
+    files = {"one.inc": ["y = 2"]}
+    for kw in ("include", "INCLUDE", "iNcLuDe"):
+        for sep in ("", "\t", " \t", "\t ", " ", "   "):
+            for q in "'\"":
+                st = kw + sep + q + "one.inc" + q
+                for pre, post, ptoks, qtoks in (("", "", [], []), ("v0 = 0; ", "", [["v0", "=", "0"]], []),
+                                                ("", " ; v1 = 1", [], [["v1", "=", "1"]])):
+                    for tail in ("", " ! c"):
+                        exp = [("stmt", t) for t in ptoks] + [("stmt", ["y", "=", "2"])] + [("stmt", t) for t in qtoks]
+                        feat = {"sweep", "include", "include-form"} | ({"semicolon"} if pre or post else set())
+                        if sep[:1] != " ":
+                            feat.add("include-keyword-not-followed-by-blank")
+                        yield [pre + st + post + tail], exp, feat, files, kw_class([st])
+    for st, toks in INC_WORD_STMTS:
+        for pre, ptoks in (("", []), ("v0 = 0; ", [["v0", "=", "0"]])):
+            yield ([pre + st + " ! c"], [("stmt", t) for t in ptoks] + [("stmt", toks)],
+                   {"sweep", "include-form", "include-word-not-a-line"} | ({"semicolon"} if pre else set()), files, kw_class([st]))
+
+
+def split_program(rng, prog):
+    """Move a random run of the program's statements into an include file (INCLUDE is textual: any run
+    will do).  Returns (statements of the main file, name, statements of the include file)."""
+    n = len(prog.stmts)
+    i = rng.randint(0, n - 1)
+    j = min(n, i + rng.randint(1, 6))
+    name = rng.choice(["part.inc", "a b.inc", "x;y.inc", "it's.inc", "bang!.inc"])
+    inc = {"atoms": inc_stmt(rng, name), "docs": []}
+    return prog.stmts[:i] + [inc] + prog.stmts[j:], name, prog.stmts[i:j]
+
+
+@contextlib.contextmanager
+def scratch():
+    """Scratch directory for the ~40 000 small files of a run.  On this machine creating a file under /tmp costs
+    ~2 ms when other checks run in parallel (80 s of a quick run); a memory-backed directory costs 0.03 ms.  TMPDIR,
+    when set, is honoured (common.scratch_dir)."""
+    shm = Path("/dev/shm")
+    if "TMPDIR" not in os.environ and shm.is_dir() and os.access(shm, os.W_OK):
+        d = Path(tempfile.mkdtemp(prefix="ford-verif-c02-", dir=shm))
+        try:
+            yield d
+        finally:
+            shutil.rmtree(d, ignore_errors=True)
+    else:
+        with common.scratch_dir() as d:
+            yield d
+
+
 def impl_read(ford, path: Path):
     """list(FortranReader(path)) with errors mapped to the model's enum."""
     from ford.reader import FortranReader
@@ -294,6 +564,14 @@ def impl_read(ford, path: Path):
         if "Preceding alternate documentation" in str(e):
             return ("err", ["predoc-alt-inline"])
         return ("err", ["RuntimeError:" + str(e)[:60]])
+    except FileNotFoundError as e:
+        if "Can not find include file" in str(e):
+            return ("err", ["not-found"])
+        return ("err", ["FileNotFoundError:" + str(e)[:60]])
+    except IndexError as e:
+        if "pop from empty list" in str(e):
+            return ("err", ["pop-empty"])
+        return ("err", ["IndexError:" + str(e)[:60]])
     except Exception as e:  # anything else is a disagreement by construction
         return ("err", [type(e).__name__ + ":" + str(e)[:60]])
 
@@ -450,6 +728,7 @@ def run(tier: str, seed: int, replay: str | None = None) -> int:
     n_layout = 3000 if tier == "quick" else 40000
     n_junk = 1500 if tier == "quick" else 15000
     n_prog = 300 if tier == "quick" else 4000
+    n_inc = 1500 if tier == "quick" else 15000
     ev_micro, bad_micro = micro_streams(ford, drv, rng, n_micro, rep)
 
     feats_hist: dict[str, int] = {}
@@ -462,46 +741,80 @@ def run(tier: str, seed: int, replay: str | None = None) -> int:
     n_oracle_fail = 0
     cases = []
     decl_log = []
-    with common.scratch_dir() as d:
+    with scratch() as d:
         # ---------------- layout stream
         for k in range(n_layout):
             nst = rng.randint(1, 3 if k % 5 else 6)
             stmts = [gen_stmt(rng, 5 if k % 7 else 9) for _ in range(nst)]
             feat: set[str] = set()
             lines, expected = render(rng, stmts, feat, safe=(k % 2 == 1))
-            cases.append((lines, expected, feat, None, "layout"))
+            cases.append((lines, expected, feat, None, "layout", None, None))
         # ---------------- sweep stream: bounded-exhaustive literals x what follows them on the line
         for lines, expected, feat in sweep_cases(rng, 2 if tier == "quick" else 3, with_breaks=True):
-            cases.append((lines, expected, feat, None, "sweep"))
+            cases.append((lines, expected, feat, None, "sweep", None, None))
+        # ---------------- include streams
+        for lines, expected, feat, files, cls in inc_sweep_cases(3 if tier == "quick" else 4):
+            cases.append((lines, expected, feat, None, "include-sweep", files, cls))
+        for lines, expected, feat, files, cls in inc_form_cases():
+            cases.append((lines, expected, feat, None, "include-sweep", files, cls))
+        for k in range(n_inc):
+            lines, expected, feat, files, cls = gen_inc_case(rng, k)
+            cases.append((lines, expected, feat, None, "include", files, cls))
         # ---------------- program stream: the same checks on a random layout of a whole module ...
         for k in range(n_prog):
             prog = PG.gen_program(rng, k)
             feat = set()
+            safe = k % 4 != 0
+            if k % 3 == 2:
+                # include-split: a run of the statements goes to an include file
+                mstmts, iname, istmts = split_program(rng, prog)
+                ilines, iexp = render(rng, [st["atoms"] for st in istmts], feat, docs=[st["docs"] for st in istmts], safe=safe)
+                lines, mexp = render(rng, [st["atoms"] for st in mstmts], feat, docs=[st["docs"] for st in mstmts], safe=safe)
+                expected = inline(mexp, {iname: iexp})
+                feat |= {"include", "include-split"}
+                cases.append((lines, expected, feat, prog, "program", {iname: ilines}, None))
+                continue
             lines, expected = render(rng, [st["atoms"] for st in prog.stmts], feat, docs=[st["docs"] for st in prog.stmts],
-                                     safe=(k % 4 != 0))
-            cases.append((lines, expected, feat, prog, "program"))
+                                     safe=safe)
+            cases.append((lines, expected, feat, prog, "program", None, None))
         # ---------------- declaration sweep: bounded-exhaustive array constructors of literals, one statement per line
         for prog in PG.sweep_programs(3 if tier == "quick" else 4):
             cases.append((PG.canonical_lines(prog.stmts), [("stmt", [t for _, t in st["atoms"]]) for st in prog.stmts],
-                          {"sweep"}, prog, "program-sweep"))
+                          {"sweep"}, prog, "program-sweep", None, None))
         # the bounded-exhaustive cases are the smallest: evaluate (and report) them first
-        prio = {"sweep": 0, "program-sweep": 1, "layout": 2, "program": 3}
+        prio = {"sweep": 0, "include-sweep": 1, "program-sweep": 2, "layout": 3, "include": 4, "program": 5}
         cases.sort(key=lambda c: prio[c[4]])
-        reqs = [["read", *MARKS, *lines] for lines, _, _, _, _ in cases]
+
+        def request(lines, files):
+            if not files:
+                return ["read", *MARKS, *lines]
+            r = ["c02.readfs", *MARKS, str(len(files))]
+            for nm, ls in files.items():
+                r += [nm, str(len(ls)), *ls]
+            return r + list(lines)
+
+        reqs = [request(c[0], c[5]) for c in cases]
         model = drv.batch(reqs)
-        for k, ((lines, expected, feat, prog, stream), mo) in enumerate(zip(cases, model)):
+        (d / MISSING_H).unlink(missing_ok=True)
+        on_disk = {}
+        for k, ((lines, expected, feat, prog, stream, files, inc_cls), mo) in enumerate(zip(cases, model)):
             p = d / f"c{k % 64}.f90"
             p.write_text("".join(l + "\n" for l in lines))
+            for nm, ls in (files or {}).items():
+                if on_disk.get(nm) != ls:
+                    (d / nm).write_text("".join(l + "\n" for l in ls))
+                    on_disk[nm] = ls
             im = impl_read(ford, p)
             for f in feat:
                 feats_hist[f] = feats_hist.get(f, 0) + 1
             stream_hist[stream] = stream_hist.get(stream, 0) + 1
             key = common.digest(lines)
-            if feat & {"break", "break-in-literal", "break-in-token", "semicolon", "inline-doc"}:
+            if feat & {"break", "break-in-literal", "break-in-token", "semicolon", "inline-doc", "include"}:
                 distinct.add(key)
             if len(samples) < 3 and "break-in-literal" in feat and "break-in-token" in feat and prog is None:
                 samples.append({"lines": lines, "items": im[1]})
             mo_t = (mo[0], mo[1:])
+            case_cls = inc_cls or classify(feat, lines)
             if (im[0], list(im[1])) != (mo_t[0], list(mo_t[1])):
                 cls = classify(feat, lines)
                 # the model is the repaired reading; a known defect class explains the difference
@@ -512,9 +825,11 @@ def run(tier: str, seed: int, replay: str | None = None) -> int:
             why = oracle(expected, im)
             if why is not None:
                 n_oracle_fail += 1
-                rep.failing_input({"stream": stream, "lines": lines, "expected": expected,
-                                   "observed": im, "why": why, "features": sorted(feat)},
-                                  classify(feat, lines))
+                fcase = {"stream": stream, "lines": lines, "expected": expected,
+                         "observed": im, "why": why, "features": sorted(feat)}
+                if files:
+                    fcase["include_files"] = files
+                rep.failing_input(fcase, case_cls)
             if prog is None:
                 continue
             # ... and the parser's entity tree
@@ -525,7 +840,7 @@ def run(tier: str, seed: int, replay: str | None = None) -> int:
             prog_hist["literals_with_comma"] += sum("," in t for t in lits)
             prog_hist["initial_values"] += len(prog.inits)
             prog_hist["bind_names"] += len(prog.binds)
-            if why is not None and classify(feat, lines) is not None:
+            if why is not None and case_cls is not None:
                 # the statements of this layout are already wrong for a listed reason
                 prog_hist["skipped_known_layout"] += 1
                 lines_for_tree = PG.canonical_lines(prog.stmts)
@@ -534,10 +849,12 @@ def run(tier: str, seed: int, replay: str | None = None) -> int:
             prog_hist["trees_compared"] += 1
             for rel, twhy in tree_oracle(d, prog, lines_for_tree, decl_log):
                 n_oracle_fail += 1
-                rep.failing_input({"stream": stream, "relation": rel, "why": twhy,
-                                   "canonical_lines": PG.canonical_lines(prog.stmts),
-                                   "lines": lines_for_tree, "features": sorted(feat)},
-                                  classify(feat, lines) if rel == "layout" else None)
+                fcase = {"stream": stream, "relation": rel, "why": twhy,
+                         "canonical_lines": PG.canonical_lines(prog.stmts),
+                         "lines": lines_for_tree, "features": sorted(feat)}
+                if files and lines_for_tree is lines:
+                    fcase["include_files"] = files
+                rep.failing_input(fcase, classify(feat, lines) if rel == "layout" else None)
         # ---------------- declarations of the programs: masking pass and initial values, model vs implementation
         dreqs, dexp = [], []
         for text, masked, strings, res in decl_log:
@@ -581,7 +898,9 @@ def run(tier: str, seed: int, replay: str | None = None) -> int:
              "of the physical lines; program cases are generated modules x random layout, parsed three times "
              "(one statement per line, random layout, neutral literals); sweep cases are bounded-exhaustive: every literal of "
              "<= 2 (thorough: 3) units over SWEEP_UNITS x both quote kinds x every SWEEP_TAILS tail (plain and continued inside the literal), "
-             "and every array constructor of <= 3 (thorough: 4) literals over c02prog.SWEEP_LITS as an initial value",
+             "and every array constructor of <= 3 (thorough: 4) literals over c02prog.SWEEP_LITS as an initial value; include cases are "
+             "(main file + include files, random layouts) and, bounded-exhaustive, every line of <= 3 (thorough: 4) statements over "
+             "INC_SWEEP_ITEMS x `;`/new line x INC_SWEEP_TAILS; a third of the program cases have a run of statements moved to an include file",
         samples=samples,
         traces_validated_against_impl=len(cases) + len(jcases) + ev_micro + 2 * len(decl_log),
         correspondence_disagreements=n_bad_corr + bad_micro,
@@ -591,7 +910,11 @@ def run(tier: str, seed: int, replay: str | None = None) -> int:
         streams=stream_hist,
     )
     rep.assumptions += [
-        "include expansion, preprocessor and text decoding are not modelled",
+        "include expansion is modelled over a flat file system (every name unique and reachable: the search order over "
+        "dirname / inc_dirs, `~` expansion and path normalisation are not modelled); preprocessor and text decoding are not modelled",
+        "in the random include stream an include statement is the keyword (any capitalisation), at least one blank, and the file "
+        "name between quotes of one kind; the spellings without a blank (`include'f'`, a tab) are covered by the bounded "
+        "`inc_form_cases` only (open finding C02-include-keyword-separator)",
         "regex engine (CPython re) is on the implementation side only; comScan is its deterministic reading, validated on the micro stream",
         "the statement oracle's tokenizer (c02prog.lex) is the harness's reading of Fortran's free-form lexical rules: "
         "literals, runs of [A-Za-z0-9_.], the two-character operators, single characters",
